@@ -51,6 +51,11 @@ def c03(run: Run):
     rules_c03.check(run, program(run), cyprogram(run), sites(run))
 
 
+def c08(run: Run):
+    from . import rules_c08
+    rules_c08.check(run, program(run), cyprogram(run), sites(run))
+
+
 def c11(run: Run):
     from . import rules_c11
     rules_c11.check(run, program(run), cyprogram(run), sites(run))
@@ -76,6 +81,7 @@ CHECKS = {
     "C03": c03,
     "C06": c06,
     "C07": c07,
+    "C08": c08,
     "C11": c11,
     "C19": c19,
 }
